@@ -293,6 +293,93 @@ pub fn explore(all_ops: &[Op]) -> Vec<(Model, Vec<Op>)> {
     out
 }
 
+/// Scale: many distinct records under one owner name (and a few under another), one of them
+/// authoritative, inserted one by one; after every insertion and after ticks the store is read back.
+/// kinds[i]: 0 authoritative, otherwise cached with that TTL.
+pub fn check_scale(n: usize, auth_at: usize, ttl_of: &dyn Fn(usize) -> u32) -> Vec<Finding> {
+    let case = json!({"kind": "scale", "n": n, "auth_at": auth_at});
+    let r = guarded(|| -> Result<Vec<(String, String)>, String> {
+        let owner = RefName::txt("x.svc.local");
+        let recs: Vec<RefRR> = (0..n)
+            .map(|i| RefRR { name: if i % 7 == 6 { RefName::txt("svc.local") } else { owner.clone() }, class: 1, cache_flush: false, ttl: 0, rdata: typed(1, vec![Val::U32(0x0a00_0000 + i as u32)]) })
+            .collect();
+        let mut store = ResourceRecordManager::new();
+        let mut bad = Vec::new();
+        let mut left: Vec<Option<u32>> = vec![None; n]; // None absent, Some(u32::MAX) authoritative, Some(k) seconds left (0 = expired)
+        let read = |store: &ResourceRecordManager<'static>, left: &Vec<Option<u32>>, when: &str, bad: &mut Vec<(String, String)>| {
+            for (name, idxs) in [("x.svc.local", (0..n).filter(|i| i % 7 != 6).collect::<Vec<_>>()), ("svc.local", (0..n).filter(|i| i % 7 == 6).collect::<Vec<_>>())] {
+                let nm = RefName::txt(name);
+                let ln = lib_name(&nm);
+                let got_auth: Vec<u32> = store.get_domain_resources(&ln, DomainResourceFilter::authoritative(false)).flatten().filter_map(|r| match &r.rdata { simple_dns::rdata::RData::A(a) => Some(a.address), _ => None }).collect();
+                let got_all: Vec<u32> = store.get_domain_resources(&ln, DomainResourceFilter::all()).flatten().filter(|r| obs_name(&r.name) == RefName::txt(name)).filter_map(|r| match &r.rdata { simple_dns::rdata::RData::A(a) => Some(a.address), _ => None }).collect();
+                for i in &idxs {
+                    let addr = 0x0a00_0000 + *i as u32;
+                    let is_auth = left[*i] == Some(u32::MAX);
+                    let alive = matches!(left[*i], Some(k) if k > 0);
+                    if got_auth.contains(&addr) != is_auth {
+                        bad.push((if is_auth { "scale-authoritative-missing".into() } else { "scale-cached-in-authoritative-query".into() }, format!("{}: record {} of {} (state {:?}) authoritative query says {}", when, i, n, left[*i], got_auth.contains(&addr))));
+                    }
+                    if got_all.contains(&addr) != alive {
+                        bad.push((if alive { "scale-record-missing".into() } else { "scale-dead-record-returned".into() }, format!("{}: record {} of {} (state {:?}) combined query says {}", when, i, n, left[*i], got_all.contains(&addr))));
+                    }
+                }
+            }
+        };
+        for i in 0..n {
+            let mut r = lib_rr(&recs[i]).map_err(|e| e)?.into_owned();
+            if i == auth_at {
+                store.add_authoritative_resource(r);
+                left[i] = Some(u32::MAX);
+            } else {
+                let ttl = ttl_of(i);
+                r.ttl = ttl;
+                store.add_cached_resource(r);
+                left[i] = Some(if ttl >= 59 { 1_000_000 } else { ttl });
+            }
+            if i % 5 == 4 || i + 1 == n || [7usize, 8, 15, 16, 31, 32, 33, 63, 64, 65].contains(&i) {
+                read(&store, &left, &format!("after inserting {} records", i + 1), &mut bad);
+            }
+            if bad.len() > 3 {
+                return Ok(bad);
+            }
+        }
+        for tick in 1..=3u32 {
+            if !store.verif_advance(1) {
+                return Err("clock".into());
+            }
+            for l in left.iter_mut() {
+                if let Some(k) = l {
+                    if *k != u32::MAX && *k > 0 && *k < 1_000_000 {
+                        *k -= 1;
+                    }
+                }
+            }
+            read(&store, &left, &format!("{} s after the last insertion", tick), &mut bad);
+            // one more reception of the first cached record: it must not disturb the others
+            let j = if auth_at == 0 { 1 } else { 0 };
+            if n > 1 {
+                let mut r = lib_rr(&recs[j]).map_err(|e| e)?.into_owned();
+                r.ttl = 1000;
+                store.add_cached_resource(r);
+                left[j] = Some(1_000_000);
+                read(&store, &left, &format!("{} s after, then one re-reception", tick), &mut bad);
+            }
+        }
+        Ok(bad)
+    });
+    match r {
+        Err(pn) => vec![finding(format!("C20|scale|{}", pn.sig()), format!("{:?}", pn), case)],
+        Ok(Err(e)) => {
+            eprintln!("MACHINERY: {}", e);
+            std::process::exit(2);
+        }
+        Ok(Ok(bad)) => {
+            let mut seen = BTreeSet::new();
+            bad.into_iter().filter(|(t, _)| seen.insert(t.clone())).map(|(t, d)| finding(format!("C20|{}", t), d, case.clone())).collect()
+        }
+    }
+}
+
 pub fn real_traces() -> Vec<Vec<Op>> {
     vec![
         vec![Op::AddCached(1, 1, false), Op::Tick],
@@ -392,6 +479,24 @@ pub fn run(ctx: &Ctx) {
         });
         ctx.space("long histories: (a b)^k for every ordered pair of the 27 operations, k in {3,6,11,20}, with and without interleaved ticks, observed at the end and one tick later", total.load(std::sync::atomic::Ordering::Relaxed), "complete");
     }
+    // scale: many records under one name
+    {
+        let sizes: Vec<usize> = vec![1, 2, 4, 8, 9, 15, 16, 17, 31, 32, 33, 34, 50, 63, 64, 65, 100, 128, 129, 200, 256, 257, 500];
+        let cases: Vec<(usize, usize)> = sizes.iter().flat_map(|n| [0usize, n / 2, n - 1].into_iter().map(move |a| (*n, a))).collect();
+        par_shards(ctx, &cases, |(n, a), t: &mut Tally| {
+            for variant in 0..2 {
+                t.evals += 1;
+                t.transitions += *n as u64;
+                t.nontrivial += 1;
+                let f = if variant == 0 { check_scale(*n, *a, &|_| 1000) } else { check_scale(*n, *a, &|i| [1u32, 2, 1000, 0, 2][i % 5]) };
+                if !f.is_empty() {
+                    t.outcome("scale-bad");
+                    ctx.violations(f);
+                }
+            }
+        });
+        ctx.space("scale: 1..=500 distinct records (23 sizes around powers of two) under two owner names, the authoritative one first / in the middle / last, all long-lived or TTLs cycling through 1,2,1000,0,2; read back during insertion, for 3 s afterwards and after a re-reception", (cases.len() * 2) as u64, "complete");
+    }
     if thorough {
         // every history of length <= 5, no deduplication
         let n = all.len();
@@ -461,5 +566,12 @@ pub fn run(ctx: &Ctx) {
 pub fn replay(case: &Value) -> Vec<Finding> {
     let hist: Vec<Op> = serde_json::from_value(case["history"].clone()).unwrap_or_default();
     let w = world();
+    if case["kind"].as_str() == Some("scale") {
+        let n = case["n"].as_u64().unwrap_or(1) as usize;
+        let a = case["auth_at"].as_u64().unwrap_or(0) as usize;
+        let mut f = check_scale(n, a, &|_| 1000);
+        f.extend(check_scale(n, a, &|i| [1u32, 2, 1000, 0, 2][i % 5]));
+        return f;
+    }
     check_history(&w, &hist, case["kind"].as_str() == Some("real"))
 }
